@@ -665,6 +665,18 @@ fn alphabet() -> &'static [CallDef] {
             script: || vec![],
         },
         CallDef {
+            name: "ser_y12", what: "to_string_with_options(yaml_12 = true) of a value whose keys / values spell YAML 1.1 booleans, nulls and numbers", base: true,
+            run: || ser_lookalikes(|o| o.yaml_12 = true), script: || vec![],
+        },
+        CallDef {
+            name: "ser_def", what: "to_string (default options) of the same look-alike value", base: true,
+            run: || ser_lookalikes(|_| ()), script: || vec![],
+        },
+        CallDef {
+            name: "ser_qa", what: "to_string_with_options(quote_all, tagged_enums, indent_step 4, compact_list_indent) of the same look-alike value", base: true,
+            run: || ser_lookalikes(|o| { o.quote_all = true; o.tagged_enums = true; o.indent_step = 4; o.compact_list_indent = true; }), script: || vec![],
+        },
+        CallDef {
             name: "nonzero", what: "from_str::<NonZeroU8>(\"0\"): static Serde error with NO guard of the call's own", base: true,
             run: || finish(catch(|| serde_saphyr::from_str::<std::num::NonZeroU8>("0")), |d| format!("{d}"), |_| vec![]),
             script: || vec![A::Scope(false, vec![A::Serr])],
@@ -680,6 +692,26 @@ fn alphabet() -> &'static [CallDef] {
             ])])],
         },
     ])
+}
+
+#[derive(serde::Serialize)]
+enum LookEnum { Y, No(i32), On { off: bool } }
+#[derive(serde::Serialize)]
+struct LookDoc { y: i32, n: String, on: Vec<String>, null: std::collections::BTreeMap<String, LookEnum>, long: String }
+
+/// serialization of one fixed value full of look-alike keys / values under an option vector: the text must not depend
+/// on what was serialized (or deserialized) before on this thread
+fn ser_lookalikes(set: impl FnOnce(&mut serde_saphyr::SerializerOptions)) -> (String, String, Vec<usize>) {
+    let mut o = serde_saphyr::SerializerOptions::default();
+    set(&mut o);
+    let d = LookDoc { y: 1, n: "no".into(), on: vec!["yes".into(), "~".into(), "1e3".into(), "off".into(), "plain".into()],
+        null: [("yes".to_string(), LookEnum::Y), ("off".to_string(), LookEnum::No(2)), ("0x1F".to_string(), LookEnum::On { off: true })].into_iter().collect(),
+        long: "word ".repeat(30) };
+    match catch(|| serde_saphyr::to_string_with_options(&d, o)) {
+        Err(m) => (format!("panic {}", hex(&m)), "panic".into(), vec![]),
+        Ok(Err(e)) => (format!("err {}", hex(&e.to_string())), "err 0".into(), vec![]),
+        Ok(Ok(s)) => (format!("ok {}", hex(&s)), "ok".into(), vec![]),
+    }
 }
 
 /// Run alphabet call `i` on the current thread: oracle text + model-comparable answer.
